@@ -222,6 +222,17 @@ add(
     "DESIGN.md §4 C15",
 )
 
+add(
+    "C14", "exploration",
+    "Hypothesis-generated trees; metamorphic oracle: identical normalised lint --json and spdx output across >= 16 run variants (pool sizes, permuted directory listings, PYTHONHASHSEED, cwd, --root spellings)",
+    "About 80 generated trees per quick run (nested REUSE.toml hierarchies with partial closest / aggregate / override tables, dep5, C01-style projects, "
+    "stacked comment terminators, several expressions per file) are each linted and exported 16 ways: serially, with pools of 1/2/3/16 workers, under two "
+    "permutations of every directory listing (serial and pooled), in fresh interpreters with three PYTHONHASHSEED values, from a sub-directory with "
+    "--root .., and from outside with absolute, relative and non-normalised --root; all normalised reports of one tree must be equal.",
+    "OS scheduling is not controlled (workers share no state; pool size and task order are varied instead); listing order is permuted by harness-owned wrappers of os.walk / glob.iglob.",
+    "DESIGN.md §4 C14",
+)
+
 NOT_BUILT = "check not built yet in this revision of /verif (planned in DESIGN.md §4; property-based testing applies)"
 
 
